@@ -277,9 +277,16 @@ pub fn run_session(chunks: &[String], inputs_json: &str) -> Result<bool, crate::
 }
 
 pub fn run_pipeline(text: &str, inputs_json: &str, ctx: &mut Ctx) -> Result<bool, crate::engine::Failure> {
-    // stage 1: parser
+    // stage 1: parser - within a budget of rule calls that grows with the text (a step count,
+    // not a clock: 4 KB of ordinary program text need well under a million)
+    let budget = PARSE_CALL_BUDGET * (1 + text.len() / 512);
+    pest::set_call_limit(std::num::NonZeroUsize::new(budget));
     let pairs = get_pairs(text);
+    pest::set_call_limit(None);
     if let Err(e) = &pairs {
+        if e.to_string().contains("call limit reached") {
+            return Err(crate::engine::Failure::new("parse-work:budget-exceeded:generated-text", format!("the parser needs more than {} rule calls for a text of {} bytes:\n{}", budget, text.len(), text.chars().take(600).collect::<String>())));
+        }
         let _ = format!("{}", e);
         let ok = match &e.location {
             pest::error::InputLocation::Pos(p) => *p <= text.len(),
